@@ -312,6 +312,11 @@ class QvmCpu:
                     return False
             else:
                 self.tick()
+            if self.halted:
+                # the program just ended (or trapped); a breakpoint
+                # matching the address after the last instruction must
+                # not turn that into a breakpoint stop
+                break
             for bp in self.breakpoints:
                 if bp(self):
                     self.last_breakpoint = bp
